@@ -42,6 +42,12 @@ GEN = {
     "syn": ("Gen_Semantics_syn.cfg", 2),
     "errors5": ("Gen_Semantics_errors5.cfg", 2),
     "errfn": ("Gen_Semantics_errfn.cfg", 2),
+    # few tokens, larger size bound: interactions that need 6-8 nodes
+    "nest": ("Gen_Semantics_nest.cfg", 2),
+    "andor4": ("Gen_Semantics_andor4.cfg", 2),
+    "fnloop": ("Gen_Semantics_fnloop.cfg", 2),
+    "errsub": ("Gen_Semantics_errsub.cfg", 2),
+    "errfun": ("Gen_Semantics_errfun.cfg", 2),
     # TLC simulation mode (random walks of the grow phase) for sizes beyond the exhaustive bound
     "sim12": ("Gen_Semantics_sim12.cfg", 2),
     "simerr": ("Gen_Semantics_simerr.cfg", 2),
@@ -52,20 +58,22 @@ SIMULATE = {"sim12": 3000, "simerr": 3000}
 PLAN = {
     "C02": {
         "quick": {"laws": ["MC_Semantics_cov.cfg", "MC_Semantics_laws_all.cfg", "MC_Semantics_laws_flow.cfg"],
-                  "gen": [("andor", 6), ("flow", 4), ("loops", 5), ("loops2", 7), ("funcs", 4), ("case", 4)],
+                  "gen": [("andor", 5), ("flow", 4), ("loops", 5), ("loops2", 7), ("funcs", 4), ("case", 4),
+                          ("nest", 6), ("andor4", 8), ("fnloop", 6)],
                   "variants": 2, "random": (1200, 40, "c02"), "real": ("flow", 4, 40)},
         "thorough": {"laws": ["MC_Semantics_cov.cfg", "MC_Semantics_laws_all.cfg", "MC_Semantics_laws_flow5.cfg"],
                      "gen": [("andor", 7), ("flow", 5), ("loops", 6), ("loops2", 7), ("funcs", 5), ("case", 5),
-                             ("sim12", 12)],
+                             ("nest", 7), ("andor4", 9), ("fnloop", 7), ("sim12", 12)],
                      "variants": 3, "random": (20000, 40, "c02"), "real": ("flow", 4, 6)},
     },
     "C10": {
         "quick": {"laws": ["MC_Semantics_cov.cfg", "MC_Semantics_laws_all.cfg", "MC_Semantics_laws_errors.cfg"],
-                  "gen": [("errexit", 4), ("errors", 4), ("errfn", 6), ("syn", 4)],
+                  "gen": [("errexit", 4), ("errors", 4), ("errfn", 6), ("syn", 4), ("errsub", 6), ("errfun", 6)],
                   "variants": 2, "random": (800, 40, "c10"), "real": ("errors", 3, 8)},
         "thorough": {"laws": ["MC_Semantics_cov.cfg", "MC_Semantics_laws_all.cfg", "MC_Semantics_laws_errors.cfg",
                               "MC_Semantics_laws_errexit.cfg"],
-                     "gen": [("errexit", 5), ("errors", 4), ("errors5", 5), ("errfn", 7), ("syn", 6), ("simerr", 10)],
+                     "gen": [("errexit", 5), ("errors", 4), ("errors5", 5), ("errfn", 7), ("syn", 6), ("errsub", 7),
+                             ("errfun", 7), ("simerr", 10)],
                      "variants": 2, "random": (20000, 40, "c10"), "real": ("errors", 4, 40)},
     },
 }
